@@ -352,9 +352,11 @@ def _run_pool(sh, ctx, gc, KmerSpec):
 			if ex is not None:
 				try:
 					fut = ex.submit(int, '7')
-					if fut.result(30) != 7:
+					if fut.result(600) != 7:
 						raise RuntimeError('bad result')
 					ctx.count('caller_executor_still_usable')
+				except TimeoutError:
+					ctx.inconc('caller-supplied executor did not answer within 600 s (loaded machine?)')
 				except Exception as e:
 					ctx.violation('caller-executor-shut-down', f'caller-supplied executor unusable afterwards: {type(e).__name__}: {e}', w)
 				ex.shutdown()
@@ -459,8 +461,10 @@ def run_fail(sh, ctx):
 							check_result(ctx, res2, exps, dict(w, history='failed call, then this successful call'), f'call after a failed call ({mode})')
 					if ex is not None:
 						try:
-							assert ex.submit(int, '3').result(30) == 3
+							assert ex.submit(int, '3').result(600) == 3
 							ctx.count('caller_executor_still_usable')
+						except TimeoutError:
+							ctx.inconc('caller-supplied executor did not answer within 600 s (loaded machine?)')
 						except Exception as e:
 							ctx.violation('caller-executor-shut-down', f'after a failure: {type(e).__name__}: {e}', w)
 						ex.shutdown()
